@@ -143,7 +143,8 @@ def hSweep (which : Nat) : Handler := fun args impl => do
       let prof := ps.toArray
       let pa := path.toArray
       let scale := ps.foldl (fun m p => fmax m (fmax p.x.abs p.y.abs)) F!(1e-300)
-      let mut rigid := true; let mut perp := true; let mut twisted := true
+      let mut rigid := true; let mut perp := true; let mut twisted := true; let mut proper := true
+      let a2 := area2 ps
       -- ring k is turned about the local direction by k times the per-step twist, measured in the frame
       -- whose x axis is `up × f` (up = +Z) and whose y axis is `f × x`
       let ta := if closed then twist / len.toFloat else twist / (len - 1).toFloat
@@ -152,6 +153,16 @@ def hSweep (which : Nat) : Handler := fun args impl => do
         let prev := if k == 0 then (if closed then pa[len - 1]! else pa[0]!) else pa[k - 1]!
         let next := if k == len - 1 then (if closed then pa[0]! else pa[len - 1]!) else pa[k + 1]!
         let f := (Pt3.sub next prev).normalized
+        -- orientation: the ring's area vector (sum of cross products about the path point) is the
+        -- profile's signed area times the travel direction for a proper rigid copy, minus that for a
+        -- mirror image — also where the frame test below has no reference (vertical directions)
+        let mut av : Pt3 Float := ⟨F!(0.0), F!(0.0), F!(0.0)⟩
+        for i in [0:n] do
+          let u := Pt3.sub parr[k * n + i]! pa[k]!
+          let v := Pt3.sub parr[k * n + (i + 1) % n]! pa[k]!
+          av := Pt3.add av (Pt3.cross u v)
+        let want := Pt3.smul f a2
+        if !(dist3 av want ≤ F!(1e-7) * (a2.abs + scale * scale + F!(1e-300))) then proper := false
         for i in [0:n] do
           let q := parr[k * n + i]!
           let j := (i + 1) % n
@@ -177,6 +188,7 @@ def hSweep (which : Nat) : Handler := fun args impl => do
             if !((Pt3.dot rel sx - wx).abs ≤ tolT && (Pt3.dot rel uy - wy).abs ≤ tolT) then twisted := false
       if !rigid then c5 := c5 ++ ["ring_is_not_a_rigid_copy_of_the_profile_at_its_path_point"]
       if !perp then c5 := c5 ++ ["ring_not_perpendicular_to_local_path_direction"]
+      if rigid && perp && !proper then c5 := c5 ++ ["ring_is_a_mirror_image_of_the_profile_seen_along_the_path"]
       if !twisted then c5 := c5 ++ ["ring_not_turned_by_k_times_the_per_step_twist"]
       if !closed then
         c5 := c5 ++ capOracle "start" ps (fs.take (n - 2)) 0 false
